@@ -137,6 +137,7 @@ pub(crate) fn validate(input: &DataType) -> Result<()> {
                 validate_dedicated_member_attrs(&member_attrs.type_hint_attrs, |x| x.container_ty.as_ref(), Some("type_hint"), member_span, &type_paths, &mut errors);
 
                 for f in &v.fields {
+                    bark_at_member_attr(&f.attrs.child_attrs, "child", |_| f.member.span(), &mut errors);
                     validate_dedicated_member_attrs(&f.attrs.attrs, |x| x.attr.container_ty.as_ref(), None, f.member.span(), &type_paths, &mut errors);
                     validate_dedicated_member_attrs(&f.attrs.ghost_attrs, |x| x.attr.container_ty.as_ref(), None, f.member.span(), &type_paths, &mut errors);
                     validate_member_error_instrs(input, &f.attrs, &mut errors);
